@@ -398,6 +398,7 @@ struct Dumper {
       if (CD->isMoveConstructor()) OS << ",\"moveCtor\":1";
       if (CD->isDefaultConstructor()) OS << ",\"defaultCtor\":1";
       if (CC->isElidable()) OS << ",\"elidable\":1";
+      if (CC->requiresZeroInitialization()) OS << ",\"zeroInit\":1"; // value-initialisation: members are zeroed first
       if (CC->isListInitialization()) OS << ",\"listInit\":1";
       OS << ",\"args\":[";
       for (unsigned i = 0; i < CC->getNumArgs(); i++) {
